@@ -25,7 +25,15 @@ def definition():
         xdoc.add_param(d, nm, uint(w))
     xdoc.add_param(d, "REST", binp(dyn("PLEN", True, 8, 8)))
     xdoc.add_container(d, "ROOT", [("p", nm) for nm, _ in HDR], abstract=True)
-    xdoc.add_container(d, "FIX", [("p", "A"), ("p", "B")], base="ROOT", crit_list=[cmp("APID", "==", 1)])
+    # BC: two overlapping context calibrators (the specific one first, a general fallback second) - which one applies is a function of
+    # the packet alone, whatever the definition decoded before
+    from harness.calib import rat
+    from harness.props.c08 import poly
+    bc = xdoc.ptype_num("int", xdoc.numeric_enc("int", 8), {"default": {"k": "none"}, "context": [
+        {"crit": [cmp("A", "==", 1)], "cal": poly([(rat(100), 0), (rat(1), 1)])},
+        {"crit": [cmp("A", "<=", 2)], "cal": poly([(rat(5), 0), (rat(1, 2), 1)])}]})
+    xdoc.add_param(d, "BC", bc)
+    xdoc.add_container(d, "FIX", [("p", "A"), ("p", "BC")], base="ROOT", crit_list=[cmp("APID", "==", 1)])
     xdoc.add_container(d, "VAR", [("p", "REST")], base="ROOT", crit_list=[cmp("APID", "==", 2)])
     # APID 5: recognised only when the selector field is 0 (abstract intermediate container): the same APID is sometimes
     # recognised and sometimes not
@@ -52,7 +60,10 @@ def make_pool(rng, per_class):
                 pool.append({"cls": cname, "bytes": list(defs.mk_packet(body, apid=apid, seq=seq))})
                 continue
             n_ = n if n is not None else rng.randint(1, 9)
-            pool.append({"cls": cname, "bytes": list(defs.mk_packet(bytes(rng.getrandbits(8) for _ in range(n_)), apid=apid, seq=seq))})
+            body = bytearray(rng.getrandbits(8) for _ in range(n_))
+            if apid == 1:
+                body[0] = (2, 1, 0, 1, 7, 2, 1, 3)[len(pool) % 8]      # A: fallback calibrator only / both / none
+            pool.append({"cls": cname, "bytes": list(defs.mk_packet(bytes(body), apid=apid, seq=seq))})
     return pool
 
 
